@@ -84,7 +84,7 @@ OpStep(r) ==
   \* requirements R3 / R4 on the step the code took
   /\ TRUE = (IF ~AF!NoStaleMount(S, e.s, r.op, e.res) /\ g = e.res
              THEN V("X03|" \o r.op \o "|mount-left-attached|" \o AF!StaleClass(S), [pre |-> Cls(S), nmount |-> r.nmount]) ELSE TRUE)
-  /\ TRUE = (IF g = "hang" THEN V("X03|" \o r.op \o "|hang|" \o (IF r.op = "mount" /\ S.stack # <<>> THEN "already-mounted" ELSE Cls(S)), r) ELSE TRUE)
+  /\ TRUE = (IF g = "hang" /\ ~AF!NoHang(S, g) THEN V("X03|" \o r.op \o "|hang|" \o (IF r.op = "mount" /\ S.stack # <<>> THEN "already-mounted" ELSE Cls(S)), r) ELSE TRUE)
   /\ S' = (IF g = "hang" /\ e.res # "hang" THEN AF!KillAll(e.s) ELSE e.s)
   /\ UNCHANGED seen
 
